@@ -90,6 +90,10 @@ type Faults struct {
 	// Conflict: predicate on the ordinal of the CAS attempt: pretend a concurrent
 	// writer won (forces the retry path) -- at most MaxConflicts in a row.
 	Conflict func(n int) bool
+	// BeforeCommit, when set, runs after the CAS function has produced a value and before the commit is attempted
+	// (argument: ordinal of the attempt by this handle). A harness uses it to let another writer commit in that
+	// window, which makes the attempt fail with a real conflict.
+	BeforeCommit func(n int)
 	// CrashAtWrite k (1-based count of commits by this handle), 0 = never.
 	CrashAtWrite int
 	CrashBefore  bool
@@ -99,14 +103,14 @@ type Handle struct {
 	s      *Store
 	Writer string
 
-	mu       sync.Mutex
-	F        Faults
-	gets     int
-	cass     int
-	attempts int
-	commits  int
-	dead     bool
-	Crashed  chan struct{} // closed when the crash point is reached
+	mu        sync.Mutex
+	F         Faults
+	gets      int
+	cass      int
+	attempts  int
+	commits   int
+	dead      bool
+	Crashed   chan struct{} // closed when the crash point is reached
 	crashOnce sync.Once
 }
 
@@ -275,6 +279,12 @@ func (h *Handle) CAS(ctx context.Context, key string, f func(in interface{}) (ou
 		nb, err := s.codec.Encode(out)
 		if err != nil {
 			return err
+		}
+		h.mu.Lock()
+		hook := h.F.BeforeCommit
+		h.mu.Unlock()
+		if hook != nil {
+			hook(an)
 		}
 		// crash point "before the commit of the k-th write"
 		h.mu.Lock()
